@@ -192,6 +192,7 @@ class Executor:
         self.def_ids: set = set()
         self.divmods: dict = {}
         self.hint_ids: set = set()
+        self._keep: list = []
         self._number_loops(fn_node)
 
     def _number_loops(self, node):
@@ -213,6 +214,7 @@ class Executor:
     def define(self, st: State, fact):
         """append a definitional fact about fresh symbols (always satisfiable: conservative extension)"""
         st.pc.append(fact)
+        self._keep.append(fact)          # keep the AST alive: z3 recycles ids of freed terms
         self.def_ids.add(fact.get_id())
 
     def carry_defs(self, frm: State, to: State):
@@ -312,9 +314,10 @@ class Executor:
             return z3.If(v.t, 1, 0)
         raise OutOfSubset(f"expected int, got {type(v).__name__}")
 
-    def divmod_(self, a, b, st, what):
-        self.vc(st, "safety", f"safety.div#{what}", b != 0, "divisor != 0")
-        key = (a.get_id(), b.get_id())
+    def divmod_(self, a, b, st, what, spec=False):
+        if not spec:
+            self.vc(st, "safety", f"safety.div#{what}", b != 0, "divisor != 0")
+        key = (z3.simplify(a).sexpr(), z3.simplify(b).sexpr())      # t-1-s and t-(s+1) are the same dividend (text keys: AST ids are recycled once a term is freed)
         if key in self.divmods:          # one quotient/remainder pair per (dividend, divisor) term: n % s and n // s share it
             q, r, fact = self.divmods[key]
             if not any(f.get_id() == fact.get_id() for f in st.pc):
@@ -404,9 +407,9 @@ class Executor:
         if isinstance(op, ast.Mult):
             return IntV(x * y)
         if isinstance(op, ast.FloorDiv):
-            return IntV(self.divmod_(x, y, st, ast.unparse(node)[:40])[0])
+            return IntV(self.divmod_(x, y, st, ast.unparse(node)[:40], spec)[0])
         if isinstance(op, ast.Mod):
-            return IntV(self.divmod_(x, y, st, ast.unparse(node)[:40])[1])
+            return IntV(self.divmod_(x, y, st, ast.unparse(node)[:40], spec)[1])
         if isinstance(op, ast.Pow) and spec and z3.is_int_value(x) and x.as_long() == 2:
             return IntV(Pow2(y))
         raise OutOfSubset(f"binary op {type(op).__name__}")
@@ -1054,6 +1057,7 @@ class Executor:
                     hg = self.truth(self.ev(_parse(hint), sx, True), sx)
                     self.vc(sx, "hint", f"loop{k}.hint#{hn}", hg, hint)
                     sx.pc.append(hg)
+                    self._keep.append(hg)
                     self.hint_ids.add(hg.get_id())
                 self.check_invs(sx, spec, k, "preserve")
                 if auto_inv is not None:
@@ -1308,7 +1312,7 @@ def verify(contract: dict, all_contracts: dict | None = None, ms: int = 10_000, 
             lean = [h for h in hyps if h.get_id() not in ex.hint_ids]
             verdict, m, dt, be = ("undecided", None, 0.0, "z3")
             if len(lean) != len(hyps):
-                verdict, m, dt, be = prove(lean + spec_axioms(lean + [vc.goal]), vc.goal, max(ms // 4, 1000), use_cvc5=False)
+                verdict, m, dt, be = prove(lean + spec_axioms(lean + [vc.goal]), vc.goal, min(ms, 1500), use_cvc5=False)
             if verdict != "proved":
                 v2, m, dt2, be = prove(hyps + ax, vc.goal, ms)
                 verdict, dt = v2, dt + dt2
